@@ -15,6 +15,7 @@ class RecFace(Face):
         self._closed = None
         self.on_send = None     # optional callable(bytes) (scripted peers)
         self.opened = 0
+        self.fail_next = None   # an exception the next send() raises instead of transmitting (a transient transport fault)
 
     def _now(self):
         try:
@@ -33,6 +34,9 @@ class RecFace(Face):
             self._closed.set_result(True)
 
     def send(self, data):
+        if self.fail_next is not None:
+            e, self.fail_next = self.fail_next, None
+            raise e
         b = bytes(data)
         self.sent.append((self._now(), b))
         if self.on_send is not None:
